@@ -17,6 +17,7 @@ type Bundle struct {
 	Tags       map[string]bool
 	AnonPtr    bool // uses an anonymous pointer (not in W for Expand)
 	AnonShared bool // anonymous pointer into a shared parameter/response (not in W with RemoveUnused)
+	Variant    int // >= 0: selects the sub-variant of a feature deterministically (systematic corpus); < 0: drawn
 	n          int
 	rng        *rand.Rand
 	hostile    bool
@@ -25,7 +26,7 @@ type Bundle struct {
 func NewBundle(rng *rand.Rand) *Bundle {
 	return &Bundle{
 		Root: jx.Obj{"swagger": "2.0", "info": jx.Obj{"title": "bundle", "version": "1"}, "paths": jx.Obj{}},
-		Aux:  map[string]jx.Obj{}, Tags: map[string]bool{}, rng: rng,
+		Aux:  map[string]jx.Obj{}, Tags: map[string]bool{}, rng: rng, Variant: -1,
 	}
 }
 
